@@ -566,7 +566,9 @@ REAL_VS_STUB = {
 }
 COMMON_ASSUMPTIONS = [
     'CPython 3.12.1 only (the only interpreter with the dependencies installed)',
-    'layer children are forked from a warmed interpreter, not exec()ed',
-    'subunit/XML/colour formatters are not exercised',
+    'layer children are forked from a warmed interpreter (runner modules imported afresh), not '
+    'exec()ed; a sample is cross-checked against real subprocesses in the thorough tier',
+    'subunit output is not exercised (python-subunit is not installed); the --xml wrapper and the '
+    'colour formatter are exercised as options',
     'sampling, not enumeration: a clean batch is evidence, not proof',
 ]
